@@ -5,6 +5,7 @@ From KV Require Import Bytes WalCodec Memtable Engine.
 From KV Require Import ReadOnly.
 From KV Require Import ApiView.
 From KV Require Import Registry.
+From KV.gen Require Import TxFacts.
 Extraction Language OCaml.
 Set Extraction Output Directory ".".
 Separate Extraction
@@ -19,4 +20,4 @@ Separate Extraction
   Engine.reopen Engine.run Engine.buffer_ops
   ReadOnly.start ReadOnly.step_client ReadOnly.step_repl ReadOnly.node_get ReadOnly.tx_get
   ReadOnly.node_scan ReadOnly.node_info ReadOnly.rw_open ReadOnly.any_open ApiView.api_view
-  Registry.init Registry.step Registry.run Registry.lock_state Registry.reg_size Registry.db_get Registry.has_pending.
+  Registry.init Registry.step Registry.run Registry.lock_state Registry.reg_size Registry.db_get Registry.has_pending TxFacts.registry_begin_timeout_ms.
